@@ -42,6 +42,7 @@ type gen struct {
 	setSeq   int
 	forced   bool
 	extNames map[string]bool
+	usedRaw  map[string]bool // raw type expressions already in the spec (one Go type = one type of the model)
 }
 
 var benignNames = []string{"Config", "Database", "Cache", "Logger", "UserRepo", "OrderRepo", "Mailer", "Queue", "Metrics", "Tracer",
